@@ -254,23 +254,47 @@ func c08Run(c *fw.Ctx) {
 	c08Unconfigured(c)
 }
 
-// c08Unconfigured: a deployment that sets neither CLIENT_PROXY_ID nor CLIENT_PROXY_SECRET. Either the
-// configuration is refused at start-up, or — if an authenticator does come up — a caller that presents
-// no credentials (or empty ones) must still be refused by every token endpoint.
+// c08Unconfigured: deployments whose proxy client credentials have an unusual shape — not set at all, or
+// a secret with commas, blanks or padding in it (what "$NEW,$OLD" expands to once OLD is unset). Either
+// the configuration is refused at start-up, or — if an authenticator does come up — every token endpoint
+// acts only for a caller presenting exactly the secret the loaded configuration holds; a caller that
+// presents nothing, empty strings, or a piece of the configured value is refused.
 func c08Unconfigured(c *fw.Ctx) {
+	configured := []string{"(unset)", "s3cret-new-0123456789,", ",s3cret-old-0123456789", "s3cret-new-0123456789, ,s3cret-old-0123456789", "s3cret-new-0123456789,s3cret-old-0123456789", " s3cret-padded-0123456789 ", "s3cret with spaces 0123456789", "s3cret-new-0123456789;s3cret-old-0123456789"}
 	drive(c, "unconfigured-proxy-client", -1, func(x *explore.Exec, owned bool) {
+		conf := configured[x.Choose("configured-secret", len(configured))]
 		ep := []string{"redeem", "refresh", "profile", "validate"}[x.Choose("endpoint", 4)]
-		presented := []string{"nothing", "empty-id-and-secret", "empty-id-only"}[x.Choose("credentials", 3)]
+		// what the caller presents as its secret: nothing, empty strings, or piece k of the configured value
+		// (split at commas, semicolons and blanks; then the whole value trimmed; then the whole value)
+		var pieces []string
+		if conf != "(unset)" {
+			for _, f := range strings.FieldsFunc(conf, func(r rune) bool { return r == ',' || r == ';' || r == ' ' }) {
+				pieces = append(pieces, f)
+			}
+			for _, f := range strings.Split(conf, ",") {
+				pieces = append(pieces, f, strings.TrimSpace(f))
+			}
+			pieces = append(pieces, strings.TrimSpace(conf), conf)
+		}
+		presentedKinds := []string{"nothing", "empty-id-and-secret", "empty-id-only", "right-id-no-secret", "right-id-empty-secret"}
+		pk := x.Choose("credentials", len(presentedKinds)+len(pieces))
 		if !owned {
 			return
 		}
-		e, err := harness.NewAuthEnv(harness.AuthOpts{EmailDomains: []string{"corp.test"}, RootDomains: []string{"sso.test"}, NoProxyClient: true})
+		opts := harness.AuthOpts{EmailDomains: []string{"corp.test"}, RootDomains: []string{"sso.test"}}
+		if conf == "(unset)" {
+			opts.NoProxyClient = true
+		} else {
+			opts.ProxySecret = conf
+		}
+		e, err := harness.NewAuthEnv(opts)
 		if err != nil {
-			c.Res.Count("configuration_without_proxy_client_refused_at_start_up", 1)
-			c.Res.Outcome("unconfigured|refused-at-start-up")
+			c.Res.Count("configuration_refused_at_start_up", 1)
+			c.Res.Outcome("unconfigured|" + conf + "|refused-at-start-up")
 			return
 		}
 		defer e.Close()
+		loaded := e.Config.ClientConfigs["proxy"].Secret
 		calls := 0
 		e.IdP.Answer = func(cl *harness.IdPCall) harness.AuthAnswer {
 			calls++
@@ -286,14 +310,33 @@ func c08Unconfigured(c *fw.Ctx) {
 		code, _ := sessions.MarshalSession(&sessions.SessionState{ProviderSlug: e.Slug, AccessToken: "session-access-token-SECRET", RefreshToken: "session-refresh-token-SECRET", Email: "Vip.User@Corp.test",
 			RefreshDeadline: future, LifetimeDeadline: future, ValidDeadline: future}, e.CodeCipher)
 		q, body, hdr := url.Values{}, url.Values{}, http.Header{"X-Access-Token": {"session-access-token-SECRET"}}
-		switch presented {
-		case "empty-id-and-secret":
-			q.Set("client_id", "")
-			body.Set("client_id", "")
-			body.Set("client_secret", "")
-			hdr.Set("X-Client-Secret", "")
-		case "empty-id-only":
-			q.Set("client_id", "")
+		presented, secret, legit := "", "", false
+		if pk < len(presentedKinds) {
+			presented = presentedKinds[pk]
+			switch presented {
+			case "empty-id-and-secret":
+				q.Set("client_id", "")
+				body.Set("client_id", "")
+				body.Set("client_secret", "")
+				hdr.Set("X-Client-Secret", "")
+			case "empty-id-only":
+				q.Set("client_id", "")
+			case "right-id-no-secret":
+				q.Set("client_id", harness.ClientID)
+				body.Set("client_id", harness.ClientID)
+			case "right-id-empty-secret":
+				q.Set("client_id", harness.ClientID)
+				body.Set("client_id", harness.ClientID)
+				body.Set("client_secret", "")
+				hdr.Set("X-Client-Secret", "")
+			}
+		} else {
+			secret = pieces[pk-len(presentedKinds)]
+			presented = fmt.Sprintf("right-id-and-piece-of-configured-secret %q", secret)
+			q.Set("client_id", harness.ClientID)
+			body.Set("client_id", harness.ClientID)
+			hdr.Set("X-Client-Secret", secret)
+			legit = secret != "" && secret == loaded
 		}
 		method := "GET"
 		switch ep {
@@ -313,11 +356,22 @@ func c08Unconfigured(c *fw.Ctx) {
 			hdr.Set("Content-Type", "application/x-www-form-urlencoded")
 		}
 		resp := e.Do(harness.NewRequest(method, "/"+e.Slug+"/"+ep+"?"+q.Encode(), harness.AuthHost, hdr, b))
-		c.Res.Outcome(fmt.Sprintf("unconfigured|%s|%s|%d|%d", ep, presented, resp.Status, calls))
-		d := map[string]interface{}{"endpoint": ep, "credentials_presented": presented, "status": resp.Status, "identity_provider_calls": calls, "body": truncate(resp.Body, 200)}
-		if resp.Status < 400 || calls > 0 || strings.Contains(resp.Body, "SECRET") || strings.Contains(strings.ToLower(resp.Body), "vip.user") {
-			c.Res.Violate(fw.Violation{Property: "C08", Key: "C08/unconfigured-proxy-client/acts-for-anonymous-caller/" + ep, Scenario: "unconfigured-proxy-client", Choices: x.Choices(), Detail: d,
-				What: fmt.Sprintf("an authenticator started without proxy client credentials answered %s with %d for a caller presenting %s (identity-provider calls: %d)", ep, resp.Status, presented, calls)})
+		c.Res.Outcome(fmt.Sprintf("unconfigured|%s|%s|%s|%d|%d", conf, ep, presented, resp.Status, calls))
+		d := map[string]interface{}{"configured_CLIENT_PROXY_SECRET": conf, "secret_in_loaded_configuration": loaded, "endpoint": ep, "credentials_presented": presented, "status": resp.Status, "identity_provider_calls": calls, "body": truncate(resp.Body, 200)}
+		acted := resp.Status < 400 || calls > 0 || strings.Contains(resp.Body, "SECRET") || strings.Contains(strings.ToLower(resp.Body), "vip.user")
+		if legit {
+			if acted {
+				c.Res.Count("positive_unusual_secret_presented_exactly_accepted", 1)
+			}
+			return
+		}
+		if acted {
+			kind := "acts-for-anonymous-caller"
+			if secret != "" {
+				kind = "acts-for-piece-of-configured-secret"
+			}
+			c.Res.Violate(fw.Violation{Property: "C08", Key: "C08/unconfigured-proxy-client/" + kind + "/" + ep, Scenario: "unconfigured-proxy-client", Choices: x.Choices(), Detail: d,
+				What: fmt.Sprintf("an authenticator started with CLIENT_PROXY_SECRET %s (loaded as %q) answered %s with %d for a caller presenting %s (identity-provider calls: %d)", conf, loaded, ep, resp.Status, presented, calls)})
 		}
 	})
 }
@@ -343,7 +397,7 @@ func init() {
 			"x secret placement {absent, body right/wrong, X-Client-Secret right/wrong, query right, prefix of the secret, secret plus a suffix, empty, body wrong + header right} x code (redeem only) {absent, garbage, genuine, bit-flipped, genuine with a line break inserted / a trailing newline / padding appended, sealed under the cookie key, genuine with expired token deadline, genuine with expired lifetime, expired only 1 s / 4 s ago}; " +
 			"oracle: a request that nowhere presents the right id AND the right secret => status >= 400, none of the session's token/email strings in body or headers, no identity-provider call; /redeem 200 => genuine unexpired code and the JSON is exactly that session's email and tokens; " +
 			"thorough adds methods {DELETE, PATCH, OPTIONS}, body encodings {multipart/form-data, urlencoded bytes labelled application/json}, path forms {trailing slash, default-provider path without the slug, doubled slash}, ids {upper-cased, right plus a space}, secrets {case-swapped, right plus a space, empty body + right header, wrong in query and header, wrong then right in the body}; " +
-			"(unconfigured-proxy-client) a deployment with CLIENT_PROXY_ID/SECRET unset: refused at start-up, or every token endpoint refuses a caller presenting nothing / empty values; " +
+			"(unconfigured-proxy-client) deployments with CLIENT_PROXY_ID/SECRET unset, or a CLIENT_PROXY_SECRET with a trailing / leading / doubled comma, a comma or semicolon pair, padding, blanks: refused at start-up, or every token endpoint refuses a caller presenting nothing / empty values / the right id without a secret / any piece of the configured value other than exactly the secret the loaded configuration holds; " +
 			"distinct_nontrivial = distinct (endpoint, method, placements, code, encoding, path form, status, IdP calls)",
 		Assumptions:    []string{"IdP scripted and healthy"},
 		QuickBudget:    4 * time.Minute,
